@@ -280,6 +280,12 @@ fn editor_text() -> BoxedStrategy<String> {
         4 => g::sentence(),
         2 => (g::sel_str(&["😀 ", "𝒜𝒷 ", "e\u{301} ", "\t", "  \t", "中文 ", "👨\u{200d}👩\u{200d}👧 "]), g::sentence()).prop_map(|(a, s)| a + &s),
         2 => g::sel_str(&["Their is an apple.", "I could of done it teh right way.", "This is an test with an problm.", "the the cat", "An 1nd time.", "teh"]),
+        // lints spanning three or more lines; overlapping lints whose fixes have the same title
+        2 => g::sel_str(&["I saw the\n  \nthe cat.", "I saw the\n\t\nthe cat", "I saw the the the cat.", "We think that that\nthat is fine.", "It is is is 😀 fine.", "an\n \n \napple and a\n\n\nan end"]),
+        1 => proptest::collection::vec(g::plain_word(), 41..60).prop_map(|ws| {
+            // a run-on sentence hard-wrapped over several lines
+            ws.chunks(12).map(|c| c.join(" ")).collect::<Vec<_>>().join("\n")
+        }),
         // lints whose span runs across markup or a comment-line boundary
         2 => g::sel_str(&["I saw the *the* cat.", "All of *the* sudden it rained.", "I saw the <b>the</b> cat.", "We could **of** gone, an *apple* a day.", "I saw the\nthe cat.", "It is a [an](x) apple and the `x` the end.", "there _fore_ we go", "an  *apple* and a  **apple**"]),
         1 => (g::sentence(), g::sel_str(&[" 😀 teh", " 𝒜 an apple an problem", "\tteh"])).prop_map(|(s, t)| s + &t),
